@@ -30,12 +30,15 @@ def space(kind, n=2):
 
 
 class FRecipe(object):
-    def __init__(self, name, build, spaces, kind, classes=(), pre=None, n=2, note='', value=None):
+    def __init__(self, name, build, spaces, kind, classes=(), pre=None, n=2, note='', value=None, only=None):
         self.name, self.build, self.spaces, self.kind = name, build, spaces, kind
         self.classes, self.pre, self.n, self.note = tuple(classes), pre, n, note
         # value(ctx, sp, x): the documented value of the functional at x, computed independently of the derived-
         # functional classes (from the base functionals and the space's own inner product)
         self.value = value
+        # only: harnesses (e.g. ('C03', 'C09')) the recipe is meant for; None = all.  Recipes whose values need the
+        # uninterpreted pow primitive are not given to the optimality / conjugacy harnesses, which cannot decide them
+        self.only = only
 
 
 FRECIPES = []
@@ -122,10 +125,11 @@ frecipe('L2NormSquared', ALLS + ('pspace',), 'pl', [DEF + 'L2NormSquared'],
 frecipe('L2Norm', ALLS, 'sqrt', [DEF + 'L2Norm', DEF + 'LpNorm'])(lambda ctx, sp: S.L2Norm(sp))
 frecipe('LinfNorm', ('rn', 'discr'), 'pl', [DEF + 'LpNorm'])(lambda ctx, sp: S.LpNorm(sp, float('inf')))
 for _p in (3, 4, 6):
-    frecipe('LpNorm/p=%d' % _p, ('rn', 'discr'), 'trans', [DEF + 'LpNorm'], note='values only (pow primitive)')(
+    frecipe('LpNorm/p=%d' % _p, ('rn', 'discr'), 'trans', [DEF + 'LpNorm'], note='values only (pow primitive)',
+            only=('C03',))(
         lambda ctx, sp, _p=_p: S.LpNorm(sp, _p))
     frecipe('IndicatorLpUnitBall/%d' % _p, ('rn',), 'ind', [DEF + 'IndicatorLpUnitBall'],
-            note='values only (pow primitive)')(lambda ctx, sp, _p=_p: S.IndicatorLpUnitBall(sp, _p))
+            note='values only (pow primitive)', only=('C03',))(lambda ctx, sp, _p=_p: S.IndicatorLpUnitBall(sp, _p))
 frecipe('GroupL1Norm', ('pspace', 'dpspace'), 'sqrt', [DEF + 'GroupL1Norm'])(lambda ctx, sp: S.GroupL1Norm(sp))
 frecipe('GroupL1Norm/p=1', ('pspace',), 'pl', [DEF + 'GroupL1Norm'])(lambda ctx, sp: S.GroupL1Norm(sp, exponent=1))
 frecipe('IndicatorGroupL1UnitBall', ('pspace',), 'ind', [DEF + 'IndicatorGroupL1UnitBall'])(
@@ -181,7 +185,7 @@ frecipe('SeparableSum/Huber(0.5)+Huber(2)', ('rn',), 'pl', [DEF + 'SeparableSum'
 # a summand with a finite gradient Lipschitz constant FIRST, one without a (finite) constant second
 frecipe('SeparableSum/L2sq+L1', ('rn',), 'pl', [DEF + 'SeparableSum'], n=1)(
     lambda ctx, sp: S.SeparableSum(S.L2NormSquared(sp), S.L1Norm(sp)))
-frecipe('SeparableSum/Huber+KL', ('rn',), 'trans', [DEF + 'SeparableSum'], n=1,
+frecipe('SeparableSum/Huber+KL', ('rn',), 'trans', [DEF + 'SeparableSum'], n=1, only=('C03', 'C09'),
         pre=lambda ctx, x: [ctx.assume(v > 0) for v in flat(x.parts[1])])(
     lambda ctx, sp: S.SeparableSum(S.Huber(sp, 0.5), S.KullbackLeibler(sp, prior=sp.element([2.0]))))
 frecipe('SeparableSum/power', ('rn',), 'pl', [DEF + 'SeparableSum'], n=1)(
@@ -321,7 +325,7 @@ frecipe('derived/QuadraticForm(op-only)*v', ('rn',), 'pl', [FUN + 'FunctionalRig
     * sp.element([2.0, -0.5]))
 frecipe('derived/QuadraticForm(op-only)*t', ('rn',), 'pl', [FUN + 'FunctionalRightVectorMult'])(
     lambda ctx, sp: S.QuadraticForm(
-        operator=odl.MatrixOperator(np.array([[1.0, 2.0], [0.0, -1.0]]), domain=sp, range=sp))
+        operator=odl.MatrixOperator(np.array([[2.0, 0.5], [0.5, 1.0]]), domain=sp, range=sp))
     * celem(ctx, sp, 't'))
 frecipe('derived/L2Norm*v', ('rn', 'discr'), 'sqrt', [FUN + 'FunctionalRightVectorMult'])(
     lambda ctx, sp: S.L2Norm(sp) * sp.element([2.0, -0.5]))
@@ -381,10 +385,12 @@ NOT_ENCODABLE_F = {
 }
 
 
-def instances(tier, want=None):
+def instances(tier, want=None, harness=None):
     """(id, recipe name, space kind) for every recipe x space."""
     out = []
     for r in FRECIPES:
+        if harness is not None and r.only is not None and harness not in r.only:
+            continue
         for sk in r.spaces:
             if want is not None and not want(r, sk):
                 continue
